@@ -118,6 +118,7 @@ def main(argv=None):
         from vlib import replay
         return replay.run_replay_file(a.replay)
     seed = int(os.environ.get("VERIF_SEED", "0"))
+    os.environ["VERIF_CURRENT_PROP"] = a.prop or ""     # read by the native evaluator (clause attribution)
     tier = a.tier if a.tier in ("quick", "thorough") else "quick"
     t0 = time.time()
     try:
